@@ -80,7 +80,7 @@ func New(ctx context.Context, l *log.Logger, iface *net.Interface, conf *pb.Serv
 				return nil, fmt.Errorf("could not create permanent lease for %v -> %v: %v", hwaddr, oopts.IP, err)
 			}
 		}
-		if _, ok := overrides[hwaddr.String()]; ok {
+		if _, ok := overrides[duidFromHwAddr(hwaddr).String()]; ok {
 			return nil, fmt.Errorf("duplicate client override for %v", hwaddr)
 		}
 		l.Printf("# client override for %s configured.", hwaddr)
